@@ -6,9 +6,10 @@ let get_kv = get_list (get_pair get_str get_str)
 let put_kv = put_list (put_pair put_str put_str)
 let register (reg : string -> (Sx.t list -> Sx.t) -> unit) =
   reg "c19_request" (fun a -> match a with
-    | [repaired; api; hs; gw; job; gk; t] ->
-        put_res (put_pair put_str (put_pair put_str (put_pair put_n (put_pair put_kv put_bool))))
-          (gw_request_cmd (get_bool repaired) (get_n api) (get_bool hs) (get_str gw) (get_str job) (get_kv gk) (get_n t))
+    | [repaired; api; hs; gw; job; gk; expo; t] ->
+        put_res (put_list (put_pair put_str (put_pair put_str (put_pair put_n (put_pair put_kv put_str)))))
+          (gw_request_cmd (get_bool repaired) (get_n api) (get_bool hs) (get_str gw) (get_str job) (get_kv gk)
+             (get_str expo) (get_n t))
     | _ -> bad "c19_request");
   reg "c19_decode" (fun a -> match a with
     | [plus; base; url] -> put_res put_kv (gw_decode_cmd (get_bool plus) (get_str base) (get_str url))
